@@ -304,7 +304,7 @@ def deferred_queries(pid, tier):
 
 def kernel_queries(pid, tier):
     """best / is_more_specific / is_base on a symbolic inheritance relation: all lattices on NC classes at once."""
-    cfgs = [(3, 2, 2), (4, 2, 2)] if tier == 'quick' else [(3, 3, 2), (4, 2, 2), (4, 3, 1), (4, 2, 3), (4, 3, 2)]
+    cfgs = [(3, 2, 2), (4, 2, 2)] if tier == 'quick' else [(3, 3, 2), (4, 2, 2), (4, 3, 1), (4, 2, 3)]
     qs = []
     for nc, nd, ar in cfgs:
         qs.append(Query('kernel_best_nc%d_nd%d_ar%d' % (nc, nd, ar), 'kernel_best.cpp', {'NC': nc, 'ND': nd, 'AR': ar}, unwind=12, models=True,
